@@ -358,11 +358,11 @@ class Gen:
             for r in R + [4]:
                 for le in ((3, "DIM"), (4, "DIM"), (5, "6")):
                     self.w("  { const unsigned DIM = cif::recipe_dim(%d); (void) DIM; Dom::T* proto = Dom::make(%d); cif::CLE le(%d, %s);" % (r, r, le[0], le[1]))
-                    self.w("    cif::CCoef n(77), d(78); int opt = 5; Coefficient mn(77), md(78); bool mopt = false; cif::CGen g(1, 1, 0); Generator mg = point();")
+                    self.w("    cif::CCoef n(77), d(78); int opt = 5; Coefficient mn(77), md(78); bool mopt = false; int mres = 0; cif::CGen g(1, 1, 0); Generator mg = point();")
                     self.w("    cif::run_self<Dom>(\"%s\", \"r%d-le%d%s\", *proto, false," % (name, r, le[0], le[1]))
                     self.w("      [&](Dom::H h) { return %s(h, le.h, n.h, d.h, &opt%s); }," % (name, ", g.h" if wp else ""))
-                    self.w("      [&](Dom::T& t) { return RET(t.%s(cif::cxx((ppl_const_Linear_Expression_t) le.h), mn, md, mopt%s)); }, nullptr," % (m.group(1), ", mg" if wp else ""))
-                    self.w("      [&]() -> bool { return cif::cxx((ppl_const_Coefficient_t) n.h) == mn && cif::cxx((ppl_const_Coefficient_t) d.h) == md && (opt != 0) == mopt%s; });" %
+                    self.w("      [&](Dom::T& t) { mres = RET(t.%s(cif::cxx((ppl_const_Linear_Expression_t) le.h), mn, md, mopt%s)); return mres; }, nullptr," % (m.group(1), ", mg" if wp else ""))
+                    self.w("      [&]() -> bool { return mres == 0 || cif::cxx((ppl_const_Coefficient_t) n.h) == mn && cif::cxx((ppl_const_Coefficient_t) d.h) == md && (opt != 0) == mopt%s; });" %
                            (" && cif::xdump(cif::cxx((ppl_const_Generator_t) g.h)) == cif::xdump(mg)" if wp else ""))
                     self.w("    delete proto; }")
             return True
@@ -370,11 +370,11 @@ class Gen:
             for r in R:
                 for le in ((3, "DIM"), (5, "6")):
                     self.w("  { const unsigned DIM = cif::recipe_dim(%d); (void) DIM; Dom::T* proto = Dom::make(%d); cif::CLE le(%d, %s);" % (r, r, le[0], le[1]))
-                    self.w("    cif::CCoef c1(71), c2(72), c3(73), c4(74); Coefficient m1(71), m2(72), m3(73), m4(74);")
+                    self.w("    cif::CCoef c1(71), c2(72), c3(73), c4(74); Coefficient m1(71), m2(72), m3(73), m4(74); int mres = 0;")
                     self.w("    cif::run_self<Dom>(\"%s\", \"r%d-le%d%s\", *proto, false," % (name, r, le[0], le[1]))
                     self.w("      [&](Dom::H h) { return %s(h, le.h, c1.h, c2.h, c3.h, c4.h); }," % name)
-                    self.w("      [&](Dom::T& t) { return RET(t.frequency(cif::cxx((ppl_const_Linear_Expression_t) le.h), m1, m2, m3, m4)); }, nullptr,")
-                    self.w("      [&]() -> bool { return cif::cxx((ppl_const_Coefficient_t) c1.h) == m1 && cif::cxx((ppl_const_Coefficient_t) c2.h) == m2 && cif::cxx((ppl_const_Coefficient_t) c3.h) == m3 && cif::cxx((ppl_const_Coefficient_t) c4.h) == m4; });")
+                    self.w("      [&](Dom::T& t) { mres = RET(t.frequency(cif::cxx((ppl_const_Linear_Expression_t) le.h), m1, m2, m3, m4)); return mres; }, nullptr,")
+                    self.w("      [&]() -> bool { return mres == 0 || cif::cxx((ppl_const_Coefficient_t) c1.h) == m1 && cif::cxx((ppl_const_Coefficient_t) c2.h) == m2 && cif::cxx((ppl_const_Coefficient_t) c3.h) == m3 && cif::cxx((ppl_const_Coefficient_t) c4.h) == m4; });")
                     self.w("    delete proto; }")
             return True
         m = re.match(r"ppl_assign_(C_|NNC_)?%s_from_(C_|NNC_)?%s$" % (re.escape(D), re.escape(D)), name)
@@ -409,9 +409,9 @@ class Gen:
             return True
         if suffix == "ascii_dump":
             for r in R:
-                self.w("  { Dom::T* proto = Dom::make(%d); std::string got;" % r)
+                self.w("  { Dom::T* proto = Dom::make(%d); std::string got, want;" % r)
                 self.w("    cif::run_self<Dom>(\"%s\", \"r%d\", *proto, false, [&](Dom::H h) { char* b = 0; size_t l = 0; FILE* f = open_memstream(&b, &l); int r = %s(h, f); cif::disarm(); fclose(f); got = std::string(b, l); free(b); return r; }," % (name, r, name))
-                self.w("      [&](Dom::T& t) { (void) t; return 0; }, nullptr, [&]() -> bool { return got == cif::xdump(*proto); }); delete proto; }")
+                self.w("      [&](Dom::T& t) { want = cif::xdump(t); return 0; }, nullptr, [&]() -> bool { return got == want; }); delete proto; }")
             return True
         if suffix == "ascii_load":
             for r, ry in ((1, 2), (2, 5), (1, -1)):
